@@ -31,7 +31,7 @@ func init() {
 	}
 	subcommands["hold-lock"] = holdLock
 	props["C19"] = propInfo{Engine: "lockmon", Level: "exploration",
-		Rule: "all sequences of a fixed length over {open rw, open ro, close slot i, publish, open that fails on a corrupt head index (rw / ro+Check), open of a missing directory} with up to three handles, each run on a fresh directory against the lock automaton; a cross-process variant; plus histories with read-only sessions compared with a read-write handle on a copy of the same files. distinct_nontrivial = distinct (automaton state, action, outcome) triples + distinct (state signature, index files removed, #segments) of read-only sessions",
+		Rule:   "all sequences of a fixed length over {open rw, open ro, close slot i, publish, open that fails on a corrupt head index (rw / ro+Check), open of a missing directory} with up to three handles, each run on a fresh directory against the lock automaton; a cross-process variant; plus histories with read-only sessions compared with a read-write handle on a copy of the same files. distinct_nontrivial = distinct (automaton state, action, outcome) triples + distinct (state signature, index files removed, #segments) of read-only sessions",
 		Assume: []string{"flock(2) semantics of the kernel; handles in one process use distinct open file descriptions, so they exclude each other like separate processes (a real second process is used in the cross-process cases)"}}
 }
 
